@@ -19,7 +19,10 @@ RULE = ('A case is (scenario, schedule): client programs (sync/async requests, t
         'timeout, every request accepted before the loss is failed with a transport error; real_later = (transport, device profile, '
         'capabilities of the server hello, framing, outstanding requests of different operations, loss) x EVERY operation of the Manager '
         'API incl. the profile\'s vendor operations and the lock context manager, synchronous and asynchronous: a call that is a request '
-        'on the live twin is refused with a transport error on the ended session; real_apps = (transport, 0..3 application listeners '
+        'on the live twin is refused with a transport error on the ended session; x any sequence of the closing operations on the ended '
+        'session (close_session() synchronous / asynchronous, leaving the manager\'s with-block with an empty body / a body that raises / '
+        'a body whose request is refused, further session.close() calls - each at least the second close() of the session), before or '
+        'after the other calls: refused with a transport error (close(): returns), the body\'s exception is never replaced by a foreign one; real_apps = (transport, 0..3 application listeners '
         'with errbacks that raise / are slow / unregister themselves or everybody / register others / re-enter, forced position relative '
         'to the reply listener in the listener set, outstanding synchronous and pipelined requests, loss incl. an application callback '
         'that raises): every outstanding request still fails promptly with a transport error.')
@@ -82,6 +85,9 @@ def run_direct(ctx):
         if name == 'real_later':
             ctx.hist(name, '%s/%s' % (rec['kind'], rec.get('profile', 'default')))
             for row in (info.get('_tie') or {}).get('later', []): ctx.hist('later_op', '%s:%d' % (row[0], row[2]))
+            for i, row in enumerate((info.get('_tie') or {}).get('closing', [])):
+                ctx.hist('closing_op', '%s%s:%d' % (fam[name].CLOSING[row[0]], ' (first after the loss)' if i == 0 else '', row[1]))
+            for row in (info.get('_tie') or {}).get('live_closing', []): ctx.hist('closing_op_live', '%s:%d' % (fam[name].CLOSING[row[0]], row[1]))
         elif name == 'real_apps':
             ctx.hist(name, '%s/%d listeners/%s' % (rec['kind'], len(rec.get('apps', [])), rec.get('loss')))
             for a in rec.get('apps', []): ctx.hist('app_errback', a.get('err', 'ok'))
@@ -123,7 +129,7 @@ def run_direct(ctx):
                 th = 'C04_bcast_visits_all'
             else:
                 d = fam[name].compare(rec, t, mo)
-                th = 'C04_later_refused'
+                th = 'C04_later_refused / C04_closing_refused'
             if d:
                 ctx.disagree(rec, 'Model/SessionEnd.v predicts the broadcast / the outcome class of every request on the ended session', d,
                              'the real session object', theorem=th)
